@@ -29,12 +29,20 @@ Definition uid := (nat * nat)%type.          (* (posting thread, its post sequen
 
 Inductive kind := KNormal | KIntr.
 
+(* DISPATCH POLICY. Which queue(s) one locked section of process_callbacks takes, and what it leaves in the two
+   has-flags, is NOT fixed by the property (only: each queue is popped FIFO and every popped callback is run or
+   skipped once). A dispatch call therefore carries, besides only_interrupt, a list of per-lock-section CHOICES
+   observed on the implementation (harness trace); when the list is exhausted the policy of the current source is
+   used. Client programs are universally quantified in every theorem, so the theorems hold for EVERY policy. *)
+Record choice := mkCh { ch_ti : bool; ch_tn : bool; ch_hn : bool; ch_hi : bool }.
+Definition dpol := (bool * list choice)%type.
+
 Inductive cmd :=
 | Post (tgt : tid) (k : kind) (oid : option idx) (b : nat)   (* b: index of the callback body *)
 | Cancel (i : idx)
 | CancelWait (i : idx)
 | CancelWait2 (i : idx)
-| Dispatch (oi : bool)
+| Dispatch (oi : dpol)
 | PollOnce.                      (* Poll::do_poll(0): fetch_or(polling), timeout decision, epoll_wait, fetch_and *)
 
 Record idword := mkW { cnt : N; dl : bool; gen : N }.
@@ -74,7 +82,7 @@ Inductive item :=
 | IDlCancel (i : idx)
 | IDlWLoad (i : idx)
 | IDlWWait (i : idx) (old : idword)
-| IBatch (es : list entry) (oi : bool)
+| IBatch (es : list entry) (oi : dpol)
 | IRun (e : entry)
 | IRet (e : entry)
 | IEndCb (i : idx) (u : uid)
@@ -216,8 +224,8 @@ Definition cw_after_load (th : thread) (i : idx) (w : idword) : item :=
   else if (cnt w =? 1)%N && negb (oidx_is (proc th) i) then ICwWait i w
   else ICwCas i w.
 
-(* the locked section of process_callbacks: returns (batch, box) ; batch = [] means return *)
-Definition disp_lock (b : mbox) (oi : bool) : list entry * mbox :=
+(* the locked section of process_callbacks as the current source has it: (batch, box) ; batch = [] means return *)
+Definition disp_default (b : mbox) (oi : bool) : list entry * mbox :=
   match qi b with
   | _ :: _ => (qi b, mkB (qn b) [] (hasn b) (hasi b) (intr b) (pol b))
   | [] =>
@@ -226,6 +234,20 @@ Definition disp_lock (b : mbox) (oi : bool) : list entry * mbox :=
         | _ :: _ => (qn b, mkB [] [] (hasn b) (hasi b) (intr b) (pol b))
         | [] => ([], mkB [] [] false false (intr b) (pol b))
         end
+  end.
+Definition nonempty {A} (l : list A) : bool := match l with [] => false | _ => true end.
+(* ... and under an observed choice: the taken queues are moved whole and in order (interrupt batch first), the flags
+   become what was observed; a choice that clears a flag over a non-empty queue is rejected (side condition of the
+   poll theorems; such an implementation loses wake-ups and is reported by the oracle) *)
+Definition disp_lock (b : mbox) (oi : dpol) : option (list entry * mbox * dpol) :=
+  match snd oi with
+  | [] => let '(batch, b1) := disp_default b (fst oi) in Some (batch, b1, oi)
+  | ch :: chs =>
+      let qi' := if ch_ti ch then [] else qi b in
+      let qn' := if ch_tn ch then [] else qn b in
+      if (negb (ch_hn ch) && nonempty qn') || (negb (ch_hi ch) && nonempty qi') then None
+      else Some ((if ch_ti ch then qi b else []) ++ (if ch_tn ch then qn b else []),
+                 mkB qn' qi' (ch_hn ch) (ch_hi ch) (intr b) (pol b), (fst oi, chs))
   end.
 
 Definition label_of_cmd (th : thread) (c : cmd) : label :=
@@ -429,10 +451,13 @@ Definition step (c : cfg) (t : tid) : option cfg :=
           match nth_error (boxes c) t with
           | None => None
           | Some b =>
-              let '(batch, b1) := disp_lock b oi in
-              match batch with
-              | [] => Some (set_thread (set_box c t b1) t th0)
-              | _ => Some (set_thread (set_box c t b1) t (set_todo th (IBatch batch oi :: rest)))
+              match disp_lock b oi with
+              | None => None
+              | Some (batch, b1, oi') =>
+                  match batch with
+                  | [] => Some (set_thread (set_box c t b1) t th0)
+                  | _ => Some (set_thread (set_box c t b1) t (set_todo th (IBatch batch oi' :: rest)))
+                  end
               end
           end
       | IBatch (e :: es) oi =>
